@@ -78,12 +78,12 @@ static void drv_reset(void)
 }
 
 /* ---- callbacks ---- */
-static jb_t *cb_ev; static int cb_count, cb_stop;
+static int cb_count, cb_stop;
 static int visit_cb(const void *e, cstl_bintree_visit_order_t order, void *p)
 {
     (void)p;
     cb_count++;
-    jb_printf(cb_ev, "%s[%d,%d]", cb_count > 1 ? "," : "", id_of_el(e), (int)order);
+    ev_add("[%d,%d]", id_of_el(e), (int)order);
     return (cb_stop && cb_count == cb_stop) ? 100 + cb_stop : 0;
 }
 static int clear_poison;
@@ -92,7 +92,7 @@ static void clear_cb(void *e, void *p)
     int id = id_of_el(e);
     (void)p;
     cb_count++;
-    jb_printf(cb_ev, "%s%d", cb_count > 1 ? "," : "", id);
+    ev_add("%d", id);
     if (id > 0) {
         held[id] = 0;
         /* the element now belongs to the callee: scribble over its links */
@@ -133,18 +133,16 @@ static void drv_apply(const vop_t *op, jb_t *res)
     }
     case 3: {
         int r;
-        jb_puts(res, ",\"ev\":[");
-        cb_ev = res; cb_count = 0; cb_stop = op->a[1];
+        cb_count = 0; cb_stop = op->a[1];
         r = RB ? cstl_rbtree_foreach(&T[cur], visit_cb, NULL, op->a[0] ? CSTL_BINTREE_FOREACH_DIR_REV : CSTL_BINTREE_FOREACH_DIR_FWD)
                : cstl_bintree_foreach(BT(), visit_cb, NULL, op->a[0] ? CSTL_BINTREE_FOREACH_DIR_REV : CSTL_BINTREE_FOREACH_DIR_FWD);
-        jb_printf(res, "],\"ret\":%d", r);
+        jb_printf(res, ",\"ret\":%d", r);
         break;
     }
     case 4:
-        jb_puts(res, ",\"ev\":[");
-        cb_ev = res; cb_count = 0; clear_poison = op->a[0];
+        cb_count = 0; clear_poison = op->a[0];
         if (RB) cstl_rbtree_clear(&T[cur], clear_cb, NULL); else cstl_bintree_clear(BT(), clear_cb, NULL);
-        jb_puts(res, "],\"ret\":0");
+        jb_puts(res, ",\"ret\":0");
         break;
     case 5: {
         size_t mn = 7777, mx = 7777;
@@ -177,6 +175,7 @@ static void drv_opjson(const vop_t *op, jb_t *b)
     }
 }
 static int drv_terminal(const vop_t *op) { (void)op; return 0; }
+static void drv_aborted(void) { }
 
 /* ---- canonical state ---- */
 static unsigned char member[MAXN + 1];
